@@ -132,6 +132,7 @@ func c10K4(r *core.R) {
 		r.Bad("kind-order", token.NoPos, "kind bits written by the node/way/relation constructors (%#x, %#x, %#x) are not ascending: sorted ids are not ordered node < way < relation", n, w, rl)
 	}
 	m.checkComparators()
+	m.checkSorted()
 	r.Stat("inlined_calls", m.ev.Inlined)
 }
 
